@@ -45,20 +45,7 @@ func propC11(c *Check) {
 	vt := p.LookupType("x/locking/types", "Validator")
 	allowedL := map[string]bool{"x/locking/keeper.Keeper.lock": true, "x/locking/keeper.Keeper.unlock": true, "x/locking/keeper.Keeper.handleVoteInfo": true,
 		"x/locking/keeper.Keeper.handleEvidence": true, "x/locking/keeper.Keeper.createValidator": true}
-	n := 0
-	for _, fs := range p.FieldStores(vt, "Locking") {
-		k := FuncKey(fs.Fn)
-		if strings.HasPrefix(k, "cmd/") {
-			continue
-		}
-		n++
-		if allowedL[k] {
-			c.Held("R1", "holding-writer "+k, p.InstrPos(fs.Store), "")
-		} else {
-			c.Violated("R1", "holding-writer "+k, p.InstrPos(fs.Store), "validator holdings written outside lock/unlock/slash")
-		}
-	}
-	c.Floor("R1", "Validator.Locking stores", n, 4)
+	c.checkFieldWriters("R1", vt, "Locking", "holding", allowedL, 4)
 	c.checkWriters("R1", "x/locking/keeper", "Slashed", map[string]string{
 		"x/locking/keeper.Keeper.handleVoteInfo": "Set", "x/locking/keeper.Keeper.handleEvidence": "Set", "x/locking/module.InitGenesis": "Set"}, 3)
 
@@ -406,17 +393,6 @@ func propC12(c *Check) {
 		"x/locking/keeper.Keeper.UpdateRewardPool": "Set", "x/locking/keeper.Keeper.DistributeReward": "Set", "x/locking/module.InitGenesis": "Set"}, 3)
 	vt := p.LookupType("x/locking/types", "Validator")
 	for _, fld := range []string{"Reward", "GasReward"} {
-		allowed := map[string]bool{"x/locking/keeper.Keeper.DistributeReward": true, "x/locking/keeper.Keeper.Claim": true, "x/locking/keeper.Keeper.createValidator": true}
-		for _, fs := range p.FieldStores(vt, fld) {
-			k := FuncKey(fs.Fn)
-			if strings.HasPrefix(k, "cmd/") {
-				continue
-			}
-			if allowed[k] {
-				c.Held("R4", fld+"-writer "+k, p.InstrPos(fs.Store), "")
-			} else {
-				c.Violated("R4", fld+"-writer "+k, p.InstrPos(fs.Store), "accrued rewards written outside distribution/claim")
-			}
-		}
+		c.checkFieldWriters("R4", vt, fld, fld, map[string]bool{"x/locking/keeper.Keeper.DistributeReward": true, "x/locking/keeper.Keeper.Claim": true, "x/locking/keeper.Keeper.createValidator": true}, 2)
 	}
 }
